@@ -157,10 +157,11 @@ def sweep(ck, pid, names, mode, powerloss=False, limit_per_scenario=None):
             continue
         T = base['total']
         baselines[name] = base
-        points = list(range(1, T + 1))
+        # n = T + 1: the operation runs to completion and the process dies (loses power) right afterwards
+        points = list(range(1, T + 2))
         if limit_per_scenario and len(points) > limit_per_scenario:
             step = len(points) / limit_per_scenario
-            points = sorted({points[int(i * step)] for i in range(limit_per_scenario)} | {1, T})
+            points = sorted({points[int(i * step)] for i in range(limit_per_scenario)} | {1, T, T + 1})
         with ThreadPoolExecutor(common.NPROC) as ex:
             results = list(ex.map(lambda n: one(name, mode, n, powerloss=powerloss), points))
         for res in results:
@@ -182,7 +183,7 @@ def sweep(ck, pid, names, mode, powerloss=False, limit_per_scenario=None):
                         probs.append(f'validation after fault+rerun is not clean ({res.get("final_exc")})')
             if probs:
                 what = {'kill': 'process killed', 'fault': 'I/O error injected'}[mode]
-                ck.fail(f'{name}: {what} at gated call #{res["n"]} of {T} ({ev[1:4] if ev else "?"}): {probs[0]}',
+                ck.fail(f'{name}: {what} at gated call #{res["n"]} of {T} ({ev[1:4] if ev else "after the last call"}): {probs[0]}',
                         {'kind': mode + ('+powerloss' if powerloss else ''), 'scenario': name, 'n': res['n'], 'of': T, 'event': ev, 'problems': probs[:6],
                          'result': res.get('result')}, f'{pid}:{name}')
     return total, baselines
